@@ -75,7 +75,14 @@ impl SqCase {
             return c;
         }
         simk::activate(simk::SetupCfg { sq_head0: h0 as u32, cq_head0: 0, ..Default::default() });
-        let ring = Ring::config().with_submission_queue_size(len as u32).build().expect("ring");
+        // `si=1`: a single-issuer ring (only the owner enters the kernel; every thread may still queue)
+        let si = get("si").unwrap_or(0) == 1;
+        let cfg = Ring::config().with_submission_queue_size(len as u32);
+        let cfg = if si { cfg.single_issuer() } else { cfg };
+        let ring = cfg.build().expect("ring");
+        if si {
+            c.feats.push("single-issuer".into());
+        }
         c.sq = Some(ring.sq());
         c.rfd = simk::with_sim(|s| *s.rings.keys().next().unwrap());
         c.ring = Some(ring);
@@ -491,7 +498,8 @@ impl Comp for SqComp {
             _ => u32::MAX - rng.below(2 * len as u64 + 2) as u32,
         };
         let n = rng.range(2, 4);
-        format!("sq begin {id} len={len} h0={h0} n={n} steps={}", rng.range(20, 80))
+        let si = rng.chance(1, 4) as u8;
+        format!("sq begin {id} len={len} h0={h0} n={n} steps={} si={si}", rng.range(20, 80))
     }
     fn begin(&mut self, header: &str) -> Box<dyn Case> {
         Box::new(SqCase::new(header))
